@@ -20,7 +20,11 @@ def orderings(e, mode):
         perms = list(itt.permutations(names))
     else:
         perms = [tuple(names), tuple(reversed(names))] if len(names) > 1 else [tuple(names)]
-    return [[Variable(n) for n in p] for p in perms]
+    out = [[Variable(n) for n in p] for p in perms]
+    # the default ordering (None: sort order of the names) and an ordering that covers more than the expression needs
+    out.append(None)
+    out.append([Variable("Z9")] + [Variable(n) for n in reversed(names)] + [Variable("A0")])
+    return out
 
 
 def check_expr(item):
@@ -33,7 +37,7 @@ def check_expr(item):
     if pre["verdict"] == "skip":  # ill-scoped input or a structurally zero denominator: outside the family
         return [{"kind": kind, "e": ej, "s": str(e), "ordering": [], "status": "skip", "why": pre["why"]}]
     for o in orderings(e, mode):
-        rec = {"kind": kind, "e": ej, "s": str(e), "ordering": [v.name for v in o]}
+        rec = {"kind": kind, "e": ej, "s": str(e), "ordering": [v.name for v in o] if o is not None else ["<default>"]}
         try:
             c = canonicalize(e, o)
         except Exception as ex:  # noqa: BLE001
@@ -83,7 +87,7 @@ def run() -> int:
     ]
     rep.bounds = {
         "expressions": "raw-constructor trees of depth <=3 over names A,B,C (+ intervention X, population tag pi1): 27 leaves (joint, conditional, value-marked, interventional, population-tagged, One, Zero), all products/fractions of two leaves, all sums over 1-2 names; depth 3 = op(depth-2 tree, leaf) in both positions, 3-factor products, sums (quick: every 40th, thorough: every 2nd)",
-        "orderings": "depth<=2: all permutations of the child/parent names; depth 3: alphabetical and reversed",
+        "orderings": "depth<=2: all permutations of the child/parent names; depth 3: alphabetical and reversed; always also the default (ordering=None) and one ordering with two extra variables",
         "distributions": "every (population, intervention assignment) has its own free positive joint over binary variables (z3 Reals); all value assignments of the free variables in one query",
         "PYTHONHASHSEED": hashseed(),
     }
@@ -144,7 +148,7 @@ def replay(payload: dict) -> int:
     from y0.mutate import canonicalize
 
     e = from_json(payload["expr"])
-    o = [Variable(n) for n in payload["ordering"]]
+    o = [Variable(n) for n in payload["ordering"]] if payload["ordering"] != ["<default>"] else None
     print("input:", e, "ordering:", payload["ordering"])
     try:
         c = canonicalize(e, o)
